@@ -112,6 +112,9 @@ def run(ctx):
     ctx.floor("ChangeHash constructors", len(ctors), 3)
     for p in sorted(ctors):
         ctx.ob("R12-ctor", "ChangeHash|%s" % norm_fn(p), p in CH_CTORS, f.fns[p]["sp"], "reviewed constructor" if p in CH_CTORS else "a hash is fabricated outside chunk::hash and the two parsers")
+    from . import C28
+    ctx.rule("R11-fields", "ChangeGraph::insert_actor and remove_actor re-index the same actor-indexed structures (get_changes walks the cached clocks)")
+    C28.check_actor_pair(ctx, f)
     # AutoCommit getters close first
     fns = C12.autocommit_fns(f)
     n = 0
